@@ -11,6 +11,31 @@ pub(crate) open spec fn extra_frame(o: &AdditionalLifecycleEventsSet, n: &Additi
 pub uninterp spec fn own_processing_in_progress(t: RegistrationToken) -> bool;
 //@ endregion
 
+//@ region insert_source_specs props=C15,C01
+/// monotone history witness: register_dispatcher(d) has been called and answered `r`
+pub uninterp spec fn w_reg_disp<'l, S, Data>(d: crate::sources::Dispatcher<'l, S, Data>, r: crate::Result<RegistrationToken>) -> bool;
+//@ endregion
+//@ open src/loop_logic.rs / impl LoopHandle<'l, Data>
+//@ item src/loop_logic.rs / impl LoopHandle<'l, Data> / fn register_dispatcher props=C15 sigonly ret=r
+//@ spec
+        // (witness only; what the function does to the slot list is the slice LoopHandle::register_dispatcher::after_borrows)
+        ensures w_reg_disp(dispatcher, r),
+//@ enditem
+//@ item src/loop_logic.rs / impl LoopHandle<'l, Data> / fn insert_source props=C15,C01 ret=r
+//@ closure <<|error| InsertError { error, inserted: dispatcher.into_source_inner(), }>>
+-> (ie: InsertError<S>) ensures ie.error == error && ie.inserted == crate::sources::disp_source(&dispatcher)
+//@ spec
+        ensures
+            // the token handed out is the one register_dispatcher answered for a dispatcher built from exactly this source
+            // (which takes part in the lifecycle hooks iff its type opted in) ...
+            r matches Ok(t) ==> exists|d: crate::sources::Dispatcher<'l, S, Data>, r0: crate::Result<RegistrationToken>| #[trigger] w_reg_disp(d, r0)
+                && crate::sources::disp_source(&d) == source && crate::sources::disp_opted_in(&d) == S::NEEDS_EXTRA_LIFECYCLE_EVENTS
+                && r0 == Ok::<RegistrationToken, crate::Error>(t),
+            // C15: ... and a failed insertion hands the source back together with the error of that registration
+            r matches Err(ie) ==> ie.inserted == source && exists|d: crate::sources::Dispatcher<'l, S, Data>, r0: crate::Result<RegistrationToken>| #[trigger] w_reg_disp(d, r0)
+                && crate::sources::disp_source(&d) == source && r0 == Err::<RegistrationToken, crate::Error>(ie.error),
+//@ enditem
+//@ close
 impl<'l, Data> LoopHandle<'l, Data> {
 // --------------------------------------------------------------------------------------------------------------
 // LoopHandle::{enable, update, disable, remove}: the WHOLE body of each function is lifted (rule S1, selector
